@@ -9,19 +9,30 @@
 (* statement on the path and the expected table.  harness/cmd/valstore      *)
 (* runs the path on the real engine, twice: with direct statement values    *)
 (* and as SQL text.                                                         *)
+(*                                                                          *)
+(* The same instance serves C14 ("a statement that returns an error changes *)
+(* nothing") with MixedUpd = TRUE: tables of several rows whose other       *)
+(* columns differ in size, SET lists whose string suits the first row and   *)
+(* makes a later row (or the first row only) exceed the limit.  LifeFrom    *)
+(* and EmitSel keep those instances small: lifecycle steps only after the   *)
+(* rows are in, and only scenarios holding a refused UPDATE are printed.    *)
 EXTENDS ValueStore, FiniteSets, Json
 
 CONSTANTS MinCols, MaxCols,
           Types,       \* column types used
           IntCls,      \* integer classes offered to INT columns
           BigCls,      \* integer classes offered to BIGINT columns
-          StrCls,      \* string classes offered to VARCHAR columns: "l0" "l1" "f399" "f400" "f401"
+          StrCls,      \* string classes offered to VARCHAR columns: "l0" "l1" "l150" "l300" "f399" "f400" "f401"
           WithNull, WithWrong,   \* offer NULL / wrong-type values
           MaxBad,      \* at most this many refusable cells per row or SET list
           WithUpd,     \* UpdateAll enabled
           MaxMut,      \* Put / UpdateAll attempts per scenario
           MaxLife,     \* Flush / EvictAll / Restart steps per scenario
+          LifeFrom,    \* lifecycle steps only once this many Put / UpdateAll were attempted (0: anywhere)
+          EmitSel,     \* "all": print every Get transition; "refused-upd": only those after a refused UpdateAll;
+                       \* "mixed-upd": only those after an UpdateAll refused by some of the rows only (needs MixedUpd)
           EmitOn
+\* MixedUpd (declared in ValueStore): UpdateAll also where rows differ in outcome
 
 VARIABLES life,      \* lifecycle steps so far, in order
           lastmut,   \* the last Put / UpdateAll attempted (<<>> before the first)
@@ -36,7 +47,8 @@ KEEP == [t |-> "k", cls |-> "keep", w |-> 0, len |-> 0]   \* SET list: column no
 
 \* fill classes get their length from the rest of the row (-1 = not yet known)
 FillTarget(c) == CASE c = "f399" -> 399 [] c = "f400" -> 400 [] c = "f401" -> 401 [] OTHER -> 0
-StrVal(c) == CASE c = "l0" -> SV(c, 0) [] c = "l1" -> SV(c, 1) [] OTHER -> SV(c, 0 - 1)
+StrVal(c) == CASE c = "l0" -> SV(c, 0) [] c = "l1" -> SV(c, 1) [] c = "l150" -> SV(c, 150) [] c = "l300" -> SV(c, 300)
+               [] OTHER -> SV(c, 0 - 1)
 IsFill(v) == v.t = "s" /\ v.len < 0
 
 Nulls == IF WithNull THEN {NV} ELSE {}
@@ -100,11 +112,17 @@ DoUpd == /\ WithUpd
                  /\ \A i \in FillCols(raw) : FillLen(schema, first, i) >= 0
                  /\ LET res == Resolved(schema, first)
                         set == [i \in cols |-> res[i]]
+                        items == SelectSeq([i \in 1..Len(schema) |-> [c |-> i, v |-> Strip(res[i]), on |-> i \in cols]],
+                                           LAMBDA x : x.on)
                     IN /\ UpdateAll(set)
-                       /\ lastmut' = <<[a |-> "upd", k |-> nmut',
-                                         set |-> SelectSeq([i \in 1..Len(schema) |-> [c |-> i, v |-> Strip(res[i]), on |-> i \in cols]],
-                                                           LAMBDA x : x.on),
-                                         ok |-> ret'.ok]>>
+                       \* with MixedUpd the scenario also says whether the rows differ in outcome, and if
+                       \* so whether the first row is among the refused ones or only later rows are
+                       /\ lastmut' = IF MixedUpd
+                                        THEN <<[a |-> "upd", k |-> nmut', set |-> items, ok |-> ret'.ok,
+                                                mixed |-> LET new == NewRows(Load, set, nmut') IN
+                                                          IF ~Mixed(new) THEN "no"
+                                                          ELSE IF Accept(schema, new[1]) THEN "later-refused" ELSE "first-refused"]>>
+                                        ELSE <<[a |-> "upd", k |-> nmut', set |-> items, ok |-> ret'.ok]>>
                        /\ hist' = Append(hist, lastmut'[1])
 
 MCNext ==
@@ -113,6 +131,7 @@ MCNext ==
         /\ (DoPut \/ DoUpd)
         /\ UNCHANGED life
      \/ /\ Len(life) < MaxLife
+        /\ nmut >= LifeFrom
         /\ \/ Flush /\ life' = Append(life, "F") /\ hist' = Append(hist, [a |-> "flush"])
            \/ EvictAll /\ life' = Append(life, "E") /\ hist' = Append(hist, [a |-> "evict"])
            \/ Restart /\ life' = Append(life, "R") /\ hist' = Append(hist, [a |-> "restart"])
@@ -129,5 +148,6 @@ MCNext ==
 \* ("... ; refused statement ; lifecycle steps ; Get").  The history is not.
 View == <<schema, abs, mem, disk, warm, dirty, gen, nmut, ret, life, lastmut>>
 
-Emit == (EmitOn /\ ret'.op = "get") => PrintT(<<"SCN", ToJson([schema |-> schema, steps |-> hist'])>>)
+RefusedUpd(h) == \E i \in 1..Len(h) : h[i].a = "upd" /\ ~h[i].ok /\ (EmitSel = "mixed-upd" => h[i].mixed # "no")
+Emit == (EmitOn /\ ret'.op = "get" /\ (EmitSel = "all" \/ RefusedUpd(hist'))) => PrintT(<<"SCN", ToJson([schema |-> schema, steps |-> hist'])>>)
 =============================================================================
